@@ -263,4 +263,82 @@ class C17f(Obligation):
         ctx.check(ctx.And(starts_before, ends_after), 'the definition range encloses the name')
 
 
-OBLIGATIONS = [C17a, C17b, C17c, C17d, C17e, C17f]
+import jedi.api as japi  # noqa: E402
+
+
+class C17g(Obligation):
+    id = 'C17.g'
+    title = 'name enumeration is a function of its flags: on one Script every _names() call passes all three flags on and returns a fresh, position-sorted list - whatever was asked before'
+    pattern = 'P2 (history of two calls with symbolic flags on the same Script; the enumeration itself is a recording stub)'
+    assumptions = (
+        'helpers.get_module_names is a stub that returns tokens encoding the flags it was called with (positions in '
+        'reverse order); module_context.create_name is the identity; both calls use arbitrary (symbolic) flag values',
+    )
+
+    def scenario(self, ctx, cfg):
+        flags = [[ctx.flag('call%d_%s' % (k, f)) for f in ('all_scopes', 'definitions', 'references')] for k in (1, 2)]
+        asked = []
+
+        def get_module_names(module, all_scopes, definitions=True, references=False):
+            asked.append((module, all_scopes, definitions, references))
+            key = (all_scopes, definitions, references)
+            return [Obj(start_pos=(3, 0), key=key), Obj(start_pos=(1, 4), key=key), Obj(start_pos=(1, 0), key=key)]
+        ctx.patch(japi.helpers, 'get_module_names', get_module_names)
+        script = jedi.Script.__new__(jedi.Script)
+        script._pysym_holder = True
+        script._inference_state = Obj(reset_recursion_limitations=lambda: None)
+        script._module_node = 'MODULE'
+        script._get_module_context = lambda: Obj(create_name=lambda n: n)
+        ctx.force(jedi.Script._names)
+        outs = []
+        for k in (0, 1):
+            a, d, r = flags[k]
+            outs.append(ctx.call(script._names, all_scopes=a, definitions=d, references=r))
+        ctx.check(all(o.exc is None for o in outs), 'never raises')
+        if any(o.exc is not None for o in outs):
+            return
+        for k in (0, 1):
+            want = tuple(flags[k])
+            got = outs[k].value
+            ctx.check(len(got) == 3 and all(n.key == want for n in got),
+                      'the names returned are those enumerated for the flags of THIS call')
+            ctx.check([n.start_pos for n in got] == [(1, 0), (1, 4), (3, 0)], 'sorted by position')
+        ctx.check(outs[0].value is not outs[1].value, 'each call returns its own list')
+
+
+from jedi.inference.names import AbstractTreeName  # noqa: E402
+
+
+class C17h(Obligation):
+    id = 'C17.h'
+    title = 'the reported name is the token text itself (no case folding, no unicode normalisation), so the text at line/column is exactly the name'
+    pattern = 'P1 (string_name / get_public_name / Name.name over a symbolic token text)'
+    assumptions = (
+        'the token text is a symbolic string of length<=3 over an alphabet with ASCII letters and characters that NFKC, '
+        'NFC and case mapping change (micro sign, fi ligature, fullwidth x, Angstrom sign, dotted capital I)',
+    )
+
+    def scenario(self, ctx, cfg):
+        text = ctx.str('token_text', maxlen=3, alphabet='aX_\u00b5\ufb01\uff58\u212b\u0130')
+        ctx.assume(ctx.len(text) > 0)
+        leaf = Obj(value=text, start_pos=(2, 4), tag='name-token')
+        n = TreeNameDefinition.__new__(TreeNameDefinition)
+        n._pysym_holder = True
+        n.tree_name = leaf
+        n.parent_context = None
+        ctx.force(AbstractTreeName.string_name.fget)
+        out = ctx.call(lambda: (n.string_name, n.get_public_name()))
+        ctx.check(out.exc is None, 'never raises')
+        if out.exc is None:
+            ctx.check(ctx.And(ctx.eq(out.value[0], text), ctx.eq(out.value[1], text)),
+                      'string_name and the public name are the token text, character for character')
+        api = classes.Name.__new__(classes.Name)
+        api._pysym_holder = True
+        api._name = n
+        out2 = ctx.call(lambda: (api.name, api.line, api.column))
+        ctx.check(out2.exc is None, 'never raises')
+        if out2.exc is None:
+            ctx.check(ctx.eq(out2.value[0], text) and out2.value[1:] == (2, 4), 'Name.name is the text found at Name.line/column')
+
+
+OBLIGATIONS = [C17a, C17b, C17c, C17d, C17e, C17f, C17g, C17h]
